@@ -60,6 +60,43 @@ extern sts_t g_sts;          /* an enclosing handler frame, when the harness cho
 extern int g_thrown;         /* ghost: set by the longjmp stub */
 extern int g_handler;        /* ghost: harness choice "an enclosing RLC_TRY exists" */
 
+/* ---- replay snapshots -----------------------------------------------------------------------------------------------
+   When a unit fails, the engine re-runs it with -DVC_REPLAY_SNAPSHOT: ghost code woven at the entry of the function under
+   contract (VC_ENTRY_<f>, generated from the function's replay signature) copies the arguments into vc_snap, so that the
+   verifier's counterexample carries the complete input of the call; vc_snap then has to be assignable in every contract. */
+#define VC_SNAP_BN 4
+#define VC_SNAP_DV 4
+#define VC_SNAP_DVLEN 80
+#define VC_SNAP_SC 10
+#define VC_SNAP_BYLEN 160
+struct vc_snap_t {
+	int taken;
+	bn_st bn[VC_SNAP_BN];
+	dig_t dv[VC_SNAP_DV][VC_SNAP_DVLEN];
+	size_t dvlen[VC_SNAP_DV];
+	unsigned long long sc[VC_SNAP_SC];
+	unsigned char by[2][VC_SNAP_BYLEN];
+	size_t bylen[2];
+	int alias[12];          /* pairwise pointer equality of the pointer arguments, in signature order */
+	int code, handler;
+};
+extern struct vc_snap_t vc_snap;
+#ifdef VC_REPLAY_SNAPSHOT
+#define VC_ASSIGNS(...)   __CPROVER_assigns(__VA_ARGS__, __CPROVER_object_whole(&vc_snap))
+#define VC_ASSIGNS_NONE   __CPROVER_assigns(__CPROVER_object_whole(&vc_snap))
+#else
+#define VC_ASSIGNS(...)   __CPROVER_assigns(__VA_ARGS__)
+#define VC_ASSIGNS_NONE   __CPROVER_assigns()
+#endif
+#define VC_SNAP_BNARG(i, p)     if (!vc_snap.taken) { vc_snap.bn[i] = *(p); }
+#define VC_SNAP_DVARG(i, p, n)  if (!vc_snap.taken) { vc_snap.dvlen[i] = (n); \
+	for (size_t vc_k = 0; vc_k < VC_SNAP_DVLEN; vc_k++) { if (vc_k < (size_t)(n)) vc_snap.dv[i][vc_k] = (p)[vc_k]; } }
+#define VC_SNAP_BYARG(i, p, n)  if (!vc_snap.taken) { vc_snap.bylen[i] = (n); \
+	for (size_t vc_k = 0; vc_k < VC_SNAP_BYLEN; vc_k++) { if (vc_k < (size_t)(n)) vc_snap.by[i][vc_k] = ((const unsigned char *)(p))[vc_k]; } }
+#define VC_SNAP_ALIAS(k, p, q)  if (!vc_snap.taken) { vc_snap.alias[k] = ((const void *)(p) == (const void *)(q)); }
+#define VC_SNAP_SCARG(i, v)     if (!vc_snap.taken) { vc_snap.sc[i] = (unsigned long long)(v); }
+#define VC_SNAP_DONE            if (!vc_snap.taken) { vc_snap.code = g_ctx.code; vc_snap.handler = (g_ctx.last != NULL); vc_snap.taken = 1; }
+
 /* ---- ghost index / carries for digit-relation contracts --------------------------------------------------- */
 extern size_t gk;
 extern dig_t g_cy[VC_MAXN + 2];
